@@ -620,3 +620,57 @@ pub fn pad_to_boundary(rng: &mut Rng, spec: &SpecTable, doc: &mut Vec<crate::enc
         });
     }
 }
+
+/// A document that nests one master inside further instances of itself `depth` times (needs a
+/// master whose declared path lets it be its own ancestor, i.e. a placeholder path). Returns the
+/// document and the id of the recursive master.
+pub fn gen_deep_doc(rng: &mut Rng, spec: &SpecTable, depth: usize) -> Option<(Vec<Node>, u64)> {
+    // find (chain, master) such that the master is allowed under chain and under chain + itself
+    let masters: Vec<&ElemDef> = spec.elems.iter().filter(|e| e.ty == Ty::Master).collect();
+    let mut found: Option<(Vec<u64>, u64)> = None;
+    'search: for _ in 0..20 {
+        let mut chain: Vec<u64> = Vec::new();
+        for _ in 0..4 {
+            for m in &masters {
+                if spec.allowed(m.id, &chain) {
+                    let mut c2 = chain.clone();
+                    c2.push(m.id);
+                    if spec.allowed(m.id, &c2) {
+                        let mut c3 = c2.clone();
+                        c3.push(m.id);
+                        if spec.allowed(m.id, &c3) {
+                            found = Some((chain.clone(), m.id));
+                            break 'search;
+                        }
+                    }
+                }
+            }
+            let cands: Vec<&&ElemDef> = masters.iter().filter(|m| spec.allowed(m.id, &chain)).collect();
+            if cands.is_empty() {
+                break;
+            }
+            chain.push(rng.pick(&cands).id);
+        }
+    }
+    let (chain, g) = found?;
+    // the placeholder may be bounded: find how deep it really goes
+    let mut full: Vec<u64> = chain.clone();
+    let mut reach = 0;
+    while reach < depth && spec.allowed(g, &full) {
+        full.push(g);
+        reach += 1;
+    }
+    if reach < 3 {
+        return None;
+    }
+    let leaf: Option<Node> = spec.elems.iter().find(|e| e.ty != Ty::Master && spec.allowed(e.id, &full)).map(|e| Node::leaf(e.id, gen_leaf_val(rng, e.ty, &PayOpts { max_len: 8, boundary_pct: 0 })));
+    let mut node: Option<Node> = leaf;
+    for id in full.iter().rev() {
+        let mut m = Node::master(*id, node.into_iter().collect());
+        if rng.chance(1, 40) && !spec.get(*id).map(|e| e.has_global()).unwrap_or(true) {
+            m.enc.unknown = true;
+        }
+        node = Some(m);
+    }
+    Some((vec![node?], g))
+}
